@@ -1,4 +1,4 @@
-HOOK_COMMITS = ["90d925a", "8940632", "5dcbe49"]
+HOOK_COMMITS = ["90d925a", "8940632", "5dcbe49", "0243fbe", "56c02d7"]
 
 CHAIN_NOTE = ("Assumed: delegation.Loader.GetDelegation is a function of (loader, cid) during one check and returns a non-nil token when err == nil; "
               "time.Now() names one instant per check and After/Before compare abstract instants; fmt.Errorf returns non-nil; "
@@ -36,5 +36,12 @@ CLAIMED["C15"] = dict(
     note="Assumed: strings.HasPrefix/HasSuffix as their definitions; 'no upper-case letters' is read as strings.ToLower(s)==s. "
          "Not yet machine-checked in this tree: the bridge from coversSpec to 'segments are a list prefix' (Lean lemma, DESIGN.md App. D) and the Join/Segments clause.",
     design="DESIGN.md §3 C15")
-for pid in ["C06","C07","C08","C09","C10","C11","C12","C13","C14","C16","C17","C18","C19","C20"]:
+CLAIMED["C13"] = dict(
+    text="Proof (unbounded): glob.Match is verified for every pattern and every string against the recursive language definition globM "
+         "(unescaped * = any sequence, backslash+c = literal c, anything else = itself) through inductive invariants of the greedy single-backtrack matcher "
+         "and two induction lemmas about * (absorbs a suffix; can start earlier); termination by a lexicographic measure; parseGlob is verified to reject exactly "
+         "the patterns with a lone trailing backslash and to return the others unchanged.",
+    note="Nothing assumed beyond the common base (strings are byte sequences). Not yet under contract: the `like` arm of matchStatement that feeds Match (selected node must be a string) - part of C11.",
+    design="DESIGN.md §3 C13")
+for pid in ["C06","C07","C08","C09","C10","C11","C12","C14","C16","C17","C18","C19","C20"]:
     NOT_APPLICABLE[pid] = "contracts for this property are not registered yet in this tree (work in progress; see DESIGN.md §6 staging)"
